@@ -114,7 +114,7 @@ ParseJudge(e) ==
   ELSE IF e.outcome = "convex" THEN (IF HasNegativeAbs(e.rel) THEN <<"ok", "convexity-error">> ELSE <<"violation", "convex-relation-rejected">>)
   ELSE IF e.outcome # "rows" THEN <<"violation", "exception:" \o e.outcome>>
   ELSE IF e.rows2 # e.rows THEN <<"violation", "parse-not-repeatable">>
-  ELSE IF e.hints.wit.kind = "witness" /\ InBox(Rng(e.names), e.hints.wit.q, e.hints.wit.d)
+  ELSE IF e.hints.wit.kind = "witness" /\ e.hints.wit.d > 0 /\ (\A v \in Rng(e.names) : v \in DOMAIN e.hints.wit.q)      \* any real point: C09 is not read inside a box
           /\ RelHoldsAt(e.rel, e.hints.wit.q, e.hints.wit.d) # AllHoldAt(e.rows, e.hints.wit.q, e.hints.wit.d)
        THEN <<"violation", "meaning-differs">>
   ELSE IF \A sg \in SignVectors(m) :
